@@ -225,6 +225,35 @@ func GenPayload(r *simrt.Rand, x *shapes.Rec) {
 	case 2:
 		x.MI = map[string][]*shapes.Inner{"k": {{N: 7, S: "m1", T: tm(7)}, {N: 8, S: "m2", T: tm(8)}}, "e": {}, "n": nil}
 	}
+	mkLine := func(tag string) shapes.Line {
+		l := shapes.Line{Name: tag}
+		if r.Bool() {
+			l.Tags = []string{tag + "1", tag + "2"}
+		}
+		if r.Bool() {
+			l.Attrs = map[string]int{tag: r.Intn(9)}
+		}
+		if r.Bool() {
+			q := r.Intn(50)
+			l.Qty = &q
+		}
+		if r.Bool() {
+			l.Sub = &shapes.Inner{N: int32(r.Intn(5)), S: tag, T: tm(9)}
+		}
+		return l
+	}
+	switch r.Intn(3) {
+	case 1:
+		x.LS = []shapes.Line{}
+	case 2:
+		x.LS = []shapes.Line{mkLine("a"), mkLine("b")}
+	}
+	if r.Bool() {
+		x.AR = [2]shapes.Line{mkLine("x"), mkLine("y")}
+	}
+	if r.Bool() {
+		x.MS = map[string]shapes.Line{"k1": mkLine("m"), "k2": mkLine("n")}
+	}
 	switch r.Intn(5) {
 	case 1:
 		x.Any = "str"
